@@ -153,11 +153,26 @@ func c16ModuleProject(variant int) *execSpec {
 		Files: map[string]string{"/proj/工具.zn": fmt.Sprintf("如何帮手？\n\t输出“工具第%d版”\n", variant)}}
 }
 
+// c16Doc is a JSON configuration document of one of three sizes (about 5000, 1100 and 60
+// bytes): the same size class always gives the byte-identical text, so that a later
+// execution parses exactly what an earlier one parsed.
+func c16Doc(class int) (string, string) {
+	n := []int{90, 20, 0}[class]
+	var items []string
+	for i := 0; i < n; i++ {
+		items = append(items, fmt.Sprintf(`{"path":"/api/v1/resource-%02d","limit":%d}`, i, 100+i))
+	}
+	return fmt.Sprintf(`{"name":"配置","retries":3,"routes":[%s]}`, strings.Join(items, ",")), []string{"large", "medium", "small"}[class]
+}
+
 // polluter draws one program that tries to leave something behind.
 func c16Polluter(t *zsim.Tape) *execSpec {
 	gs := c16Globals()
 	guard := "\n\n拦截异常：\n\t输出“挡住”\n"
-	switch t.Draw(15) {
+	switch t.Draw(16) {
+	case 15: // a parsed document bound without a copy (得到) and patched in place
+		doc, size := c16Doc(t.Draw(3))
+		return &execSpec{ID: "json-doc-patched:" + size, Mode: "script", Main: "导入《@JSON》\n\n（解析JSON：“" + doc + "”），得到配置\n以配置（写入：“已处理”、“是”）\n配置 # “retries” = 42\n输出“污染者结束”" + guard}
 	case 14: // a redefined constructor whose body declares things of its own, and is then used
 		g := append(gs, "探针异常")[t.Draw(len(gs)+1)]
 		imp := ""
@@ -212,7 +227,10 @@ func c16Polluter(t *zsim.Tape) *execSpec {
 // victim draws a program from the fixed battery that reads predefined state.
 func c16Victim(t *zsim.Tape) *execSpec {
 	gs := c16Globals()
-	switch t.Draw(12) {
+	switch t.Draw(13) {
+	case 12: // the byte-identical document parsed again and only read
+		doc, size := c16Doc(t.Draw(3))
+		return &execSpec{ID: "json-doc-read:" + size, Mode: "script", Main: "导入《@JSON》\n\n令配置 = （解析JSON：“" + doc + "”）\n令标记 = 以配置（读取：“已处理”）\n令重试 = 配置 # “retries”\n（显示：标记、重试、配置之长度）\n输出“读完文档”\n"}
 	case 11: // predefined values as seen by the input-variable text
 		return &execSpec{ID: "varinput-reads", Mode: "script", VarInput: "甲 = 数值\n乙 = 以数值（加：1）", Main: "输入甲、乙\n（显示：甲、乙）\n输出“输入完”\n"}
 	case 10: // default property values of a library class
@@ -293,13 +311,17 @@ func c16EnumPolluters() []*execSpec {
 		}
 		out = append(out, &execSpec{ID: "ctor-with-declarations:" + c, Mode: "script", Main: imp + fmt.Sprintf("如何新建%s？\n\t输入文\n\t如何加标记？\n\t\t输出“标”\n\t定义临时类：\n\t\t其名 = “t”\n\t令记 = 文\n\n令错 = （新建%s：“x”）\n输出“污染者结束”%s", c, c, guard)})
 	}
+	for class := 0; class < 3; class++ {
+		doc, size := c16Doc(class)
+		out = append(out, &execSpec{ID: "json-doc-patched:" + size, Mode: "script", Main: "导入《@JSON》\n\n（解析JSON：“" + doc + "”），得到配置\n以配置（写入：“已处理”、“是”）\n配置 # “retries” = 42\n输出“污染者结束”" + guard})
+	}
 	for _, c := range []string{"探针异常", "探针箱"} {
 		out = append(out, &execSpec{ID: "ctor:" + c, Mode: "script", Main: fmt.Sprintf("导入《@探针》\n\n如何新建%s？\n\t输入文\n\t（显示：“构造器被替换”）\n\n输出“污染者结束”%s", c, guard)})
 	}
 	return out
 }
 
-const c16Victims = 12
+const c16Victims = 13
 
 func c16PartA(t *zsim.Tape, cfg *hlib.Config) *hlib.Outcome {
 	sc := &c16Scenario{Part: "A:history"}
